@@ -236,6 +236,15 @@ func c11Prop(c *sim.Case) {
 	h.w.IdP.AtHash = sim.Bool(c, "at_hash")
 	c.Logf("world: %v at_hash=%v", ho, h.w.IdP.AtHash)
 	h.exec(&op{K: "login", B: 0, Target: "/a"})
+	// a second user whose tokens run out a few seconds after the first one's: what one session's exchanges leave
+	// behind in the process (counters, caches, back-off state) must not decide another session's refresh
+	companion := sim.Weighted(c, "companion", 2, 1) == 1
+	relogin := sim.Bool(c, "persistent-user") // after a failed refresh the user logs in again at once
+	if companion {
+		h.exec(&op{K: "advance", B: 0, Rel: "abs", D: time.Duration(2+sim.Pick(c, "companion.lag", 9)) * time.Second})
+		h.exec(&op{K: "login", B: 1, Target: "/a"})
+		c.Class("companion-session")
+	}
 	var tags []string
 	for i := 0; i < nsteps; i++ {
 		w4 := 0
@@ -266,6 +275,14 @@ func c11Prop(c *sim.Case) {
 			h.exec(&op{K: "idp", Beh: b, BehTag: tag})
 			h.exec(&op{K: "nav", B: 0, Target: "/a", Method: []string{"", "", "POST", "PUT", "DELETE", "PATCH"}[sim.Pick(c, "method", 6)]})
 			h.w.IdP.Next = nil // an unused scripted answer must not leak into a later exchange
+			if relogin && h.cur(0) == nil || relogin && h.cur(0) != nil && len(h.cur(0).Toks) == 0 {
+				h.exec(&op{K: "login", B: 0, Target: "/a"})
+			}
+			if companion && h.cur(1) != nil && len(h.cur(1).Toks) > 0 {
+				// the companion's turn: its tokens have run out as well (or are about to), the provider answers it honestly
+				h.exec(&op{K: "advance", B: 1, Rel: sim.PickStr(c, "companion.rel", "idexp", "atexp"), D: time.Duration(1+sim.Pick(c, "companion.off", 4)) * 500 * time.Millisecond})
+				h.exec(&op{K: "nav", B: 1, Target: "/a"})
+			}
 		case 1:
 			h.exec(&op{K: "nav", B: 0, Target: genTarget(c, "t"), Method: []string{"", "", "POST", "HEAD"}[sim.Pick(c, "method2", 4)]})
 		case 2:
